@@ -232,6 +232,20 @@ def run(tier):
         recs = [d(*(["x", "t", 7][: len(d.get_field_tuples())] if d is not Cc else [5, "t"]), _generated=gen.GEN) for d in order]
         cases.append(seq_case(recs, True, "seq:same-name-interleaved", "string"))
         ctx.case(("seq-same-name", len(order), order[0] is A))
+    # text that looks like structure, FOLLOWED by further records (one document per line, whatever the line contains)
+    Tx = RecordDescriptor("js/text", [("string", "f"), ("string", "tail")])
+    for texts in (["int main(void) {", "x", "} // end"], ["{{{", "}"], ['{"_type": "recorddescriptor"', "y"], ["[[", "]]", "{", "}"], ["\\{", '"{', "ok"]):
+        for descriptors in (True, False):
+            cases.append(seq_case([Tx(t, "t", _generated=gen.GEN) for t in texts], descriptors, "seq:structure-like-text-then-more-records", "string"))
+            ctx.case(("seq-structure-text", tuple(texts), descriptors))
+    # two types whose identifiers COINCIDE (same name, same concatenation of field names and types), interleaved: every
+    # record comes back under the definition it was written with
+    X = RecordDescriptor("js/x", [("string", "a"), ("string", "b")])
+    Xc = RecordDescriptor("js/x", [("string", "astringb")])
+    mkx = {id(X): lambda i: X("a%d" % i, "b%d" % i, _generated=gen.GEN), id(Xc): lambda i: Xc("c%d" % i, _generated=gen.GEN)}
+    for order in ([X, Xc, X], [Xc, X, Xc, X], [X, X, Xc, Xc, X]):
+        cases.append(seq_case([mkx[id(d)](i) for i, d in enumerate(order)], True, "seq:coinciding-identifiers-interleaved", "string"))
+        ctx.case(("seq-coinciding", len(order), order[0] is X))
     # the same, where the versions differ in WHICH fields are bytes (the reader must decode base64 per descriptor, not per name)
     Ab = RecordDescriptor("js/sameb", [("bytes", "f"), ("string", "tail")])
     Bb = RecordDescriptor("js/sameb", [("bytes", "f"), ("string", "tail"), ("bytes", "extra")])
